@@ -90,14 +90,21 @@ fn history(seed: u64, threads: usize, nlocks: usize, ops_per_thread: usize, miri
     for h in handles {
         all.extend(h.join().expect("worker thread"));
     }
-    let mut violations = vec![];
-    if overlap.load(Ordering::SeqCst) > 0 {
-        violations.push(format!("{} closures entered a lock while another was inside", overlap.load(Ordering::SeqCst)));
+    let finals: Vec<Vec<u64>> = (0..nlocks).map(|l| locks[l].apply(|v| v.clone())).collect();
+    check_history(&all, &finals, overlap.load(Ordering::SeqCst), vec![])
+}
+
+/// The offline checker: one total order per lock, consistent with every observed predecessor, with real time
+/// and with the values `apply` returned.
+fn check_history(all: &[Op], finals: &[Vec<u64>], overlaps: u64, mut violations: Vec<String>) -> Outcome {
+    let nlocks = finals.len();
+    if overlaps > 0 {
+        violations.push(format!("{overlaps} closures entered a lock while another was inside"));
     }
     let mut switches = 0;
     let mut signature = 0xcbf2_9ce4_8422_2325u64;
     for l in 0..nlocks {
-        let fin: Vec<u64> = locks[l].apply(|v| v.clone());
+        let fin: &Vec<u64> = &finals[l];
         let mine: Vec<&Op> = all.iter().filter(|o| o.lock == l).collect();
         let mut issued: Vec<u64> = mine.iter().map(|o| o.id).collect();
         issued.sort_unstable();
@@ -134,12 +141,136 @@ fn history(seed: u64, threads: usize, nlocks: usize, ops_per_thread: usize, miri
                 switches += 1;
             }
         }
-        for id in &fin {
+        for id in fin {
             signature = mix(signature ^ (id >> 32) ^ ((l as u64) << 8));
         }
     }
     violations.truncate(8);
     Outcome { ops: all.len(), violations, switches, signature }
+}
+
+/// Closed bursts: persistent worker threads are released together round after round; in every round each worker
+/// makes `per_round` calls and then waits at the barrier. Because a round is closed, a call that is parked while
+/// the lock is free (lost wake-up) can only be rescued by the next round - which does not start before the call
+/// returns. The coordinator decides on progress, not on a deadline for the run: a stall is declared only when no
+/// call at all has returned for `STALL_S` seconds although every other worker is idle at the barrier; it then makes
+/// an unrelated call on every lock itself (from a probe thread) and reports whether that released the stuck caller.
+fn bursts(seed: u64, threads: usize, nlocks: usize, rounds: usize, per_round: usize, miri: bool) -> Outcome {
+    const STALL_S: u64 = 20;
+    let locks: Arc<Vec<StdLock<Vec<u64>>>> = Arc::new((0..nlocks).map(|_| StdLock::new(Vec::new())).collect());
+    let inside: Arc<Vec<AtomicBool>> = Arc::new((0..nlocks).map(|_| AtomicBool::new(false)).collect());
+    let clock = Arc::new(AtomicU64::new(1));
+    let overlap = Arc::new(AtomicU64::new(0));
+    let epoch = Arc::new(AtomicU64::new(0));
+    let done = Arc::new(AtomicU64::new(0));
+    let stop = Arc::new(AtomicBool::new(false));
+    let logs: Arc<Vec<std::sync::Mutex<Vec<Op>>>> = Arc::new((0..threads).map(|_| std::sync::Mutex::new(Vec::new())).collect());
+    let mut handles = vec![];
+    for t in 0..threads {
+        let (locks, inside, clock, overlap, epoch, done, stop, logs) = (locks.clone(), inside.clone(), clock.clone(), overlap.clone(), epoch.clone(), done.clone(), stop.clone(), logs.clone());
+        handles.push(std::thread::spawn(move || {
+            for round in 0..rounds {
+                let mut spins = 0u32;
+                while epoch.load(Ordering::Acquire) <= round as u64 {
+                    if stop.load(Ordering::Relaxed) {
+                        return;
+                    }
+                    spins += 1;
+                    if miri || spins % 2048 == 0 {
+                        std::thread::yield_now();
+                    } else {
+                        std::hint::spin_loop();
+                    }
+                }
+                for j in 0..per_round {
+                    let k = round * per_round + j;
+                    let h = mix(seed ^ ((t as u64) << 40) ^ k as u64);
+                    let l = (h % nlocks as u64) as usize;
+                    let id = ((t as u64 + 1) << 40) | (k as u64 + 1);
+                    let nonce = h >> 7;
+                    let call = clock.fetch_add(1, Ordering::SeqCst);
+                    let r = locks[l].apply(|v| {
+                        if inside[l].swap(true, Ordering::SeqCst) {
+                            overlap.fetch_add(1, Ordering::SeqCst);
+                        }
+                        let pred = v.last().copied().unwrap_or(0);
+                        v.push(id);
+                        inside[l].store(false, Ordering::SeqCst);
+                        (pred, id, nonce)
+                    });
+                    let ret = clock.fetch_add(1, Ordering::SeqCst);
+                    logs[t].lock().unwrap().push(Op { lock: l, id, call, ret, pred: r.0, returned_id: r.1, returned_nonce: r.2, nonce });
+                }
+                done.fetch_add(1, Ordering::Release);
+            }
+        }));
+    }
+    let mut violations = vec![];
+    let mut hung = false;
+    'rounds: for round in 0..rounds {
+        epoch.store(round as u64 + 1, Ordering::Release);
+        let target = (round as u64 + 1) * threads as u64;
+        let (mut last, mut t_last, mut spins) = (done.load(Ordering::Acquire), std::time::Instant::now(), 0u32);
+        loop {
+            let d = done.load(Ordering::Acquire);
+            if d == target {
+                break;
+            }
+            spins += 1;
+            if miri || spins % 1024 == 0 {
+                std::thread::yield_now();
+                if d != last {
+                    last = d;
+                    t_last = std::time::Instant::now();
+                } else if !miri && t_last.elapsed().as_secs() >= STALL_S {
+                    let outstanding = target - d;
+                    // an unrelated call on every lock, from a probe thread (it may hang as well)
+                    let probe_done = Arc::new(AtomicBool::new(false));
+                    {
+                        let (locks, probe_done) = (locks.clone(), probe_done.clone());
+                        std::thread::spawn(move || {
+                            for l in locks.iter() {
+                                l.apply(|v| v.len());
+                            }
+                            probe_done.store(true, Ordering::SeqCst);
+                        });
+                    }
+                    let t0 = std::time::Instant::now();
+                    while t0.elapsed().as_secs() < 10 && done.load(Ordering::Acquire) != target {
+                        std::thread::sleep(std::time::Duration::from_millis(20));
+                    }
+                    let rescued = done.load(Ordering::Acquire) == target;
+                    violations.push(format!(
+                        "round {round}: {outstanding} of {threads} workers had a call to apply outstanding for {STALL_S} s while every other worker was idle at the barrier; an unrelated apply on each lock {} and afterwards the stuck call(s) {}: a caller was parked although the lock was free (lost wake-up / deadlock)",
+                        if probe_done.load(Ordering::SeqCst) { "returned at once" } else { "did not return either" },
+                        if rescued { "returned" } else { "still had not returned" }
+                    ));
+                    // one witness is enough (every further one would cost another STALL_S seconds)
+                    hung = !rescued;
+                    break 'rounds;
+                } else {
+                    std::hint::spin_loop();
+                }
+            } else {
+                std::hint::spin_loop();
+            }
+        }
+    }
+    stop.store(true, Ordering::SeqCst);
+    if hung {
+        // the stuck workers cannot be joined; report what is known and leave
+        violations.truncate(8);
+        return Outcome { ops: logs.iter().map(|l| l.lock().unwrap().len()).sum(), violations, switches: 0, signature: 0 };
+    }
+    for h in handles {
+        h.join().expect("worker thread");
+    }
+    let mut all: Vec<Op> = vec![];
+    for l in logs.iter() {
+        all.append(&mut l.lock().unwrap());
+    }
+    let finals: Vec<Vec<u64>> = (0..nlocks).map(|l| locks[l].apply(|v| v.clone())).collect();
+    check_history(&all, &finals, overlap.load(Ordering::SeqCst), violations)
 }
 
 fn main() {
@@ -154,6 +285,8 @@ fn main() {
     let ops = get("--ops", 100) as usize;
     let miri = cfg!(miri);
     let vary = argv.iter().any(|a| a == "--vary");
+    let bursts_n = get("--bursts", 0) as usize;
+    let per_round = get("--per-round", 1) as usize;
     let t0 = std::time::Instant::now();
     let (mut total_ops, mut switches, mut nviol) = (0usize, 0u64, 0usize);
     let mut sigs = std::collections::BTreeSet::new();
@@ -161,15 +294,19 @@ fn main() {
     for h in 0..histories {
         let s = mix(seed.wrapping_mul(1_000_003).wrapping_add(h));
         let (t, l, o) = if vary { (2 + (s % (threads as u64 - 1).max(1)) as usize, 1 + ((s >> 8) % locks as u64) as usize, ops) } else { (threads, locks, ops) };
-        let out = history(s, t, l, o, miri);
+        let out = if bursts_n > 0 { bursts(s, t, l, bursts_n, per_round, miri) } else { history(s, t, l, o, miri) };
+        let hung = out.violations.iter().any(|v| v.contains("still had not returned"));
         total_ops += out.ops;
         switches += out.switches;
         sigs.insert(out.signature);
         nviol += out.violations.len();
         if first.len() < 5 {
             for v in out.violations {
-                first.push(format!("history {h} (seed {s}, {t} threads, {l} locks, {o} ops/thread): {v}"));
+                first.push(format!("history {h} (seed {s}, {t} threads, {l} locks, {}): {v}", if bursts_n > 0 { format!("{bursts_n} bursts of {per_round} call(s) per thread") } else { format!("{o} ops/thread") }));
             }
+        }
+        if hung {
+            break; // parked worker threads are still around: no further histories in this process
         }
     }
     let esc = |s: &str| s.replace('\\', "\\\\").replace('"', "\\\"");
